@@ -200,6 +200,9 @@ pub struct WorldCfg {
     pub write_cap: usize,
     /// back-pressure: every write call first stays Pending for this long (virtual time)
     pub write_delay: Duration,
+    /// a transport whose shutdown never completes (a TLS stream whose closing handshake is stuck): poll_shutdown
+    /// stays Pending for ever. Nothing in the properties lets the client depend on it completing.
+    pub shutdown_stalls: bool,
     pub c2s_latency: Vec<Duration>,
     pub reply_delay: Vec<Duration>,
     pub chunk_delay: Vec<Duration>,
@@ -211,6 +214,8 @@ pub struct WorldCfg {
     pub fault: Fault,
     pub password: Option<(String, PasswordVerdict)>,
     pub art: Option<ArtStore>,
+    /// what the art commands answer for particular URIs (overrides `art`): songs differ in what art they have
+    pub art_by_uri: Vec<(String, ArtStore)>,
     /// lines the listing commands (playlistinfo, playlistid, currentsong, find, listplaylistinfo, listallinfo) answer with
     pub listing: Option<Vec<(String, String)>>,
 }
@@ -224,6 +229,7 @@ impl WorldCfg {
             pending_p: 0,
             write_cap: usize::MAX,
             write_delay: Duration::ZERO,
+            shutdown_stalls: false,
             c2s_latency: vec![Duration::ZERO],
             reply_delay: vec![Duration::ZERO],
             chunk_delay: vec![Duration::ZERO],
@@ -234,6 +240,7 @@ impl WorldCfg {
             fault: Fault::None,
             password: None,
             art: None,
+            art_by_uri: Vec::new(),
             listing: None,
         }
     }
@@ -794,7 +801,8 @@ impl World {
             }),
             "currentsong" => Ok(AFrame::empty()),
             "readpicture" | "albumart" => {
-                let Some(art) = g.cfg.art.clone() else {
+                let by_uri = g.cfg.art_by_uri.iter().find(|(u, _)| *u == arg(0)).map(|(_, a)| a.clone());
+                let Some(art) = by_uri.or_else(|| g.cfg.art.clone()) else {
                     return Err(ack(5, format!("unknown command \"{}\"", name)).into());
                 };
                 let embedded = name == "readpicture";
@@ -1008,6 +1016,11 @@ impl AsyncWrite for SimIo {
         Poll::Ready(Ok(()))
     }
     fn poll_shutdown(self: Pin<&mut Self>, _cx: &mut Context<'_>) -> Poll<io::Result<()>> {
+        let mut g = self.w.inner.lock().unwrap();
+        if g.cfg.shutdown_stalls {
+            g.push(EvKind::Note("poll_shutdown called on a transport whose shutdown never completes".into()));
+            return Poll::Pending;
+        }
         Poll::Ready(Ok(()))
     }
 }
